@@ -142,6 +142,10 @@ struct Plan {
 };
 
 // ---------------------------------------------------------------- outcome of one run
+struct Outcome;
+std::string outcome_to_text(const Outcome& o);
+Outcome outcome_from_text(const std::string& text);
+
 struct Outcome {
     std::string cls;    // "" = property held on this run; otherwise violation class id
     std::string detail; // first divergent observation, human readable
@@ -202,6 +206,12 @@ public:
     // knobs the shrinker may try to simplify, with the "simplest" value for each
     virtual std::vector<std::pair<std::string, s64>> simplest_knobs() const {
         return {};
+    }
+    // number of pristine Teakra instances (own memory, user memory) one execution needs. Non-zero
+    // means: construct them once per worker and execute every plan in a forked child, so each run
+    // starts from bit-identical freshly constructed instances without paying for construction.
+    virtual std::pair<int, int> pool_need() const {
+        return {0, 0};
     }
     virtual const char* components_real() const = 0;
     virtual const char* components_stub() const = 0;
